@@ -333,6 +333,13 @@ func reducedAlphabet() []string {
 	return l
 }
 
+// miniAlphabet is the sub-alphabet for the longest programs (thorough tier): storage writes and
+// reads, the failing macros, self-destruct, creation and one call of each kind.
+func miniAlphabet() []string {
+	return []string{"P1", "POP", "SS0", "SZ0", "SL0", "REV", "INV", "SD_SELF", "CR_OK",
+		"CALL:self:0:all", "CALL:B:0:all", "CALL:B:1:all", "CALLCODE:B:0:all", "DELEGATECALL:B:all", "STATICCALL:B:all", "CALL:C:0:all"}
+}
+
 // behaviours are the fixed programs given to B and C while A is enumerated.
 var behaviours = map[string][]string{
 	"stop":       {"STOP"},
